@@ -753,4 +753,4 @@ class _endfinder(ast.nodevisitor):
     def __init__(self):
         self.end = -1
     def visitheredoc(self, node, value):
-        self.end = node.pos[1]
+        self.end = max(self.end, node.pos[1])
